@@ -7,7 +7,7 @@ From Coq Require Import String Ascii.
 From Coq Require Import List NArith ZArith Lia Bool.
 From Wbxml Require Import Model.Codec Model.TablesDefs Model.Tables Model.Parser Model.TreeBuild Model.TreeConv Model.Conv Model.ConvConcrete
      Proofs.TreeBuildProofs Proofs.TreeBuildProofs3 Proofs.TreeRoundTrip Proofs.TreeRoundTripWide Proofs.ConvRoundTrip
-     Proofs.ConvRoundTripWide Proofs.ConvSecondIter Proofs.ConvSecondNs.
+     Proofs.ConvRoundTripWide Proofs.ConvWideUnforced Proofs.ConvSecondIter Proofs.ConvSecondNs.
 From Wbxml Require Model.EncWbxml Model.TreeNorm Proofs.TreeNormProofs Proofs.EncWbxmlProofs Proofs.EncWbxmlAbs Proofs.EncWbxmlDenote2
      Proofs.EncWbxmlTblOk Proofs.EncWbxmlDenote3.
 From Wbxml Require Model.EncXml Model.XmlRead Proofs.EncXmlProofs Proofs.EncXmlIndent.
@@ -299,7 +299,7 @@ Theorem second_iteration_wide (L : lang) o o' tag attrs ch2 x w2 :
   Proofs.EncWbxmlAbs.plain_env e = true -> D2.vals_ok L = true -> l_exts L = None ->
   TK.tree_ok3 L 0 R2 = true ->
   find (fun y => l_id y =? l_id L) TBL = Some L ->
-  wo_lang o' = l_id L -> l_id L <> 0 -> wo_charset o' = 0 ->
+  lang_choice TBL L (E.header_public_id e) (wo_lang o') -> wo_charset o' = 0 ->
   E.o_version o < 4 -> E.header_public_id e < 4294967296 -> E.header_public_id e <> 0 ->
   (match Proofs.EncWbxmlAbs.header_pid e with Some p => D2.okb p = true | None => True end) ->
   no_data (D3.doc_events3 L e (E.o_keep_ws o) R2) = true ->
@@ -313,7 +313,7 @@ Theorem second_iteration_wide (L : lang) o o' tag attrs ch2 x w2 :
       r_out (ConvXml2Wbxml.xml2wbxml_events main btbl sub (events_of_info_ns d) true o doc2) = Some w2 /\
       wbxml2xml_model TBL o' w2 = mk_res ST_OK (Some (x ++ [0])) (N.of_nat (length x)).
 Proof.
-  intros e wa R2 root' xl xo nmx ax Hx Hlok Hok Hcomp Hsyn Htg Hwok Hcan Hst Hen Hfl HP HV HX HT HFind Hforced Hid Hcs Hv Hp1 Hp0 Hpid Hnd He Hlen.
+  intros e wa R2 root' xl xo nmx ax Hx Hlok Hok Hcomp Hsyn Htg Hwok Hcan Hst Hen Hfl HP HV HX HT HFind Hch Hcs Hv Hp1 Hp0 Hpid Hnd He Hlen.
   assert (Hroot : to_xnode TBL L root' = X.Elt nmx ax (map (to_xnode TBL L) (map (tnodeW wa) ch2))) by reflexivity.
   rewrite Hroot in Hx, Hok.
   destruct (XI.read_enc_g xl xo _ _ _ x Hlok Hok Hx) as (c & s' & Hinfo & Hread).
@@ -337,7 +337,7 @@ Proof.
   { unfold ConvXml2Wbxml.xml2wbxml_events, conv_run. destruct doc2 as [|d0 dr]; [congruence|]. cbv beta. rewrite Hfront.
     unfold ConvXml2Wbxml.encode_tree. cbn [XF.xt_lang XF.xt_roots]. rewrite Hfl. fold R2 in He. rewrite He. reflexivity. }
   split; [exact Hout|].
-  destruct (conversion_roundtrip_wide main TBL btbl sub _ true o doc2 w2 L tag attrs ch2 o' Hout Hlen) as (x2 & Hm2 & Hx2 & _); try assumption.
+  destruct (conversion_roundtrip_wide_choice main TBL btbl sub _ true o doc2 w2 L tag attrs ch2 o' Hout Hlen) as (x2 & Hm2 & Hx2 & _); try assumption.
   { intros t0 Ht0. fold R2 in Ht0. rewrite Hfront in Ht0. injection Ht0 as <-. cbn [XF.xt_lang XF.xt_roots]. split; [exact Hfl|reflexivity]. }
   cbv zeta in Hx2. fold e in Hx2. fold wa in Hx2.
   pose proof (normal_fixW wa (E.o_keep_ws o) R2 Hen) as Hfix. cbn [TreeNorm.norm_node flat_map tnw tnodeW app R2] in Hfix. injection Hfix as Hfix.
